@@ -576,8 +576,22 @@ where
                 std::slice::from_raw_parts(mmap.as_ptr(), file_size)
             };
             
-            std::fs::write(&self.file_path, content)
-                .map_err(|e| ZiporaError::io_error(&format!("Failed to sync to file: {}", e)))?;
+            // Write a temporary file, flush it and rename it over the backing file: an
+            // interrupted sync leaves either the previous or the new content on disk, never a
+            // mixture of old and new blocks (the format carries no checksum to detect one).
+            let mut tmp_name = self.file_path.clone().into_os_string();
+            tmp_name.push(".sync-tmp");
+            let tmp_path = PathBuf::from(tmp_name);
+            let replace = || -> std::io::Result<()> {
+                let mut tmp = std::fs::File::create(&tmp_path)?;
+                tmp.write_all(content)?;
+                tmp.sync_all()?;
+                std::fs::rename(&tmp_path, &self.file_path)
+            };
+            replace().map_err(|e| {
+                let _ = std::fs::remove_file(&tmp_path);
+                ZiporaError::io_error(&format!("Failed to sync to file: {}", e))
+            })?;
         }
         Ok(())
     }
